@@ -61,7 +61,7 @@ def card_work(payload):
         names = "".join(cfg["data"]["dat_order"])
         fourbody = len(names) == 4
         if fourbody:
-            ev = four.lattice4(2 if tier == "quick" else 3, seed=seed, orientations=2)
+            ev = (four.lattice4_id if label.startswith("four_id") else four.lattice4)(2 if tier == "quick" else 3, seed=seed, orientations=2)
         else:
             ms = [cfg["particle"]["$finals"][x]["mass"] for x in "BCD"]
             ev = kin.lattice3(zoo.M_TOP, ms, payload["K"], seed=seed, orientations=2)
@@ -77,12 +77,22 @@ def card_work(payload):
             blocks.append([f(a) for a in ev])
             labels.append((gl, kind))
         if ident:
-            # exchange of the declared identical particles (B <-> C), alone and combined with a rotation
-            blocks.append([ev[1], ev[0], ev[2]])
-            labels.append(("swapBC", "exchange"))
+            # exchange of the declared identical particles (every non-empty subset of the declared pairs), alone and
+            # combined with a rotation
+            pairs = [("B", "C")] if ident is True else [tuple(g) for g in ident]
             Rm = kin.GENERIC_R
-            blocks.append([kin.rotate(ev[1], Rm), kin.rotate(ev[0], Rm), kin.rotate(ev[2], Rm)])
-            labels.append(("swapBC+rot", "exchange+rotation"))
+            for k in range(1, len(pairs) + 1):
+                for sub in itertools.combinations(pairs, k):
+                    order = list(names)
+                    for a, b in sub:
+                        ia, ib = order.index(a), order.index(b)
+                        order[ia], order[ib] = order[ib], order[ia]
+                    sw = [ev[names.index(x)] for x in order]
+                    tag = "swap" + "+".join(a + b for a, b in sub)
+                    blocks.append(sw)
+                    labels.append((tag, "exchange"))
+                    blocks.append([kin.rotate(a, Rm) for a in sw])
+                    labels.append((tag + "+rot", "exchange+rotation"))
         p4 = {x: np.concatenate([b[i] for b in blocks]) for i, x in enumerate(names)}
         try:
             with contextlib.redirect_stdout(io.StringIO()):
@@ -163,6 +173,9 @@ def cards(tier):
                 out.append(("%s%s|BD=%d" % (fam[0], tag, i), cfg, True))
     for l, cfg, pc in four.members(tier):
         out.append((l, cfg, False))
+    # two groups of identical particles in a four-body decay
+    for kind, tag, data in (("scalar", "", {}), ("vector", "(default-align)", {}), ("vector", "(cm-align)", {"align_ref": "center_mass", "center_mass": True})):
+        out.append(("four_id_%s%s|pair+casc" % (kind, tag), four.id_card4(kind, data), [["B", "C"], ["D", "E"]]))
     # other decay models (couplings per helicity instead of per (l,s), parity-related helicity couplings, CP-violating
     # couplings, (l,s)-split line shapes) on the cards with all three chains
     mem = dict(F.members(tier))
